@@ -423,12 +423,12 @@ fn decoder_inner(ctx: &Ctx) -> Report {
 // ---------------- driver lane ----------------
 
 #[derive(Debug, Default)]
-struct DriverObs {
-    bind: String,
-    stream: Vec<String>,
-    driver: String,
-    driver_panic: Option<String>,
-    caller_panics: Vec<String>,
+pub struct DriverObs {
+    pub bind: String,
+    pub stream: Vec<String>,
+    pub driver: String,
+    pub driver_panic: Option<String>,
+    pub caller_panics: Vec<String>,
 }
 
 fn envelope_class(input: &[u8]) -> &'static str {
@@ -454,6 +454,13 @@ fn envelope_class(input: &[u8]) -> &'static str {
 }
 
 fn run_driver_case(i: u64, rng: &mut Rng, rep: &mut Report, forced: Option<Vec<u8>>, verbose: bool) {
+    let (obs, input, label, target_id) = observe_driver_case(rng, forced);
+    judge_driver_case(i, rep, &obs, &input, &label, target_id, verbose)
+}
+
+/// Runs one hostile frame against a connection with a bind pending on ID 1 and a search on ID 2 and
+/// reports what driver and callers did (also used by C04, which judges the callers).
+pub fn observe_driver_case(rng: &mut Rng, forced: Option<Vec<u8>>) -> (DriverObs, Vec<u8>, String, i64) {
     let target_id = if rng.bool() { 1 } else { 2 };
     let (input, label) = match forced {
         Some(f) => (f, "replayed".to_string()),
@@ -546,6 +553,10 @@ fn run_driver_case(i: u64, rng: &mut Rng, rep: &mut Report, forced: Option<Vec<u
         }
         o
     });
+    (obs, input, label, target_id)
+}
+
+fn judge_driver_case(i: u64, rep: &mut Report, obs: &DriverObs, input: &[u8], label: &str, target_id: i64, verbose: bool) {
     let replay = json!({"lane":"driver","case":i,"input_hex":ber::hex(&input[..input.len().min(600)])});
     let cls = label.split(':').last().unwrap_or(&label).to_string();
     if let Some(site) = &obs.driver_panic {
